@@ -57,16 +57,21 @@ def unmarshalPayload (t : UInt8) (nextOfSK : UInt8) (body : Bytes) : Res Payload
   else if t == Facts.typeEAP then (do let e ← unmarshalEap body; .ok (.eap e))
   else .err
 
+/-- the next-payload octet written in front of `p`: the type of the payload that
+follows, or for the last payload 0 — except for an Encrypted payload, whose own
+NextPayload field (type of the first inner payload) is written. -/
+def nextField (p : Payload) (rest : List Payload) : UInt8 :=
+  match rest with
+  | q :: _ => q.typeCode
+  | [] => match p with
+          | .sk n _ => n
+          | _ => Facts.typeNoNext
+
 /-- `IKEPayloadContainer.Encode` -/
 def encodeChain : List Payload → Res Bytes
   | [] => .ok []
   | p :: rest => do
-    let next : UInt8 :=
-      match rest with
-      | q :: _ => q.typeCode
-      | [] => match p with
-              | .sk n _ => n
-              | _ => Facts.typeNoNext
+    let next : UInt8 := nextField p rest
     let data ← marshalPayload p
     let len := 4 + data.length
     if len > 0xFFFF then .err else do
@@ -106,11 +111,14 @@ def decodeChain (t : UInt8) (b : Bytes) : Res (List Payload) :=
 termination_by b.length
 decreasing_by simp only [List.length_drop]; omega
 
+/-- type of the first payload, `NoNext` for an empty list -/
+def firstType : List Payload → UInt8
+  | p :: _ => p.typeCode
+  | [] => Facts.typeNoNext
+
 /-- `IKEMessage.Encode`: returns the datagram and the header as updated by the call -/
 def encodeMsg (m : Msg) : Res (Bytes × Header) := do
-  let next : UInt8 := match m.payloads with
-    | p :: _ => p.typeCode
-    | [] => Facts.typeNoNext
+  let next : UInt8 := firstType m.payloads
   let pb ← encodeChain m.payloads
   let h := { m.hdr with next := next, payloadBytes := pb }
   let bs ← marshalHeader h
